@@ -143,3 +143,19 @@ reg('C02',
     level_text='Exhaustive over the stated tables and messages: wrong entry, wrong effective header, handler run twice/not at all, missing or spurious -113, and disagreement of SCPI_CmdTag / SCPI_IsCmd / SCPI_CommandNumbers with the model are reported.',
     level_note='units carry no parameters here (C05 covers parameters)',
     design_ref='DESIGN.md section 3 / C02')
+
+reg('C05',
+    title='wrong, missing or surplus parameters raise the right error, never mis-delivered',
+    src='c05_params.c',
+    configs={'quick': ['def'], 'thorough': ['def']},
+    deadline={'quick': 100, 'thorough': 1500},
+    level=MC,
+    technique='bounded-exhaustive enumeration of (handler signature, parameter list) pairs executed through SCPI_Input on a fresh context (ASan), compared with a model of the statement driven by the reference tokenizer',
+    rule={'quick': 'signatures: every sequence of 0..2 typed reads (10 readers x mandatory/optional) x handler result OK/ERR x stop/continue after a failed read (1684 signatures); lists: every sequence of 0..3 items over 14 well-formed data items of every type (numbers with/without known/unknown suffix, nondecimal, character data, strings and blocks and expressions containing commas) and 4 malformed fragments (empty item, open string, two numbers, @) x 4 white-space styles around the commas; non-trivial = well-formed unit (the model then predicts the complete trace of reads, values and errors)',
+          'thorough': 'signatures of 0..3 reads (lists of 0..2 items for 3 reads)'},
+    assumptions=['a suffixed number handed to a non-numeric reader may raise -104 or -138 (the statement is ambiguous there)',
+                 'integer value of a non-integer decimal literal is not compared (C04 owns conversions)',
+                 'malformed units: any number >= 1 of errors, all in -100..-199'],
+    level_text='Exhaustive over the stated signatures and lists: every deviation of the read results, delivered values, error codes and their order, -200/-108 accounting and the SCPI_Input return value from the model is reported.',
+    level_note='item classification uses the independent reference lexer of C13; unit names come from the exported unit table',
+    design_ref='DESIGN.md section 3 / C05')
